@@ -35,7 +35,7 @@ CHECKS = {
         text="For every kernel x outlier proposal x permutation distribution x parent tree over <=3 (4) data points: the oracle's complete list "
              "of placements is scored (sum of reported probabilities = 1, all positive) and ALL executions of sample() reproduce exp(log_p) "
              "exactly; for every data order ALL placement paths of SMCSampler and ConditionalSMCSampler (every compatible retained tree) are "
-             "enumerated and weight ratios must equal target/proposal ratios including generation 1; reachable final trees = compatible trees. A second pass over every parent tree with deep two-sample data judges positivity and normalisation in log space.",
+             "enumerated and weight ratios must equal target/proposal ratios including generation 1; reachable final trees = compatible trees. A second pass over every parent tree with deep two-sample data judges positivity and normalisation in log space; kernels re-used after alpha changes of 2.9 and of 3e-5.",
         note="Weights are judged up to the per-generation normalisation the swarm applies (ratios between particles of one swarm). Data from a generic alphabet.",
         design="4/C08",
     ),
@@ -44,29 +44,29 @@ CHECKS = {
         category="model_checking",
         technique="exhaustive enumeration of every shuffle outcome of RootPermutationDistribution.sample on every tree over n<=4 (5) data points vs brute-force filter of all n! orders",
         text="Exact distribution over data orders for all 427 trees over <=4 data points incl. every outlier subset (n=5 thorough), three "
-             "sibling/label variants: support = brute-force compatible orders, every order has probability 1/count to 1e-12, log_pdf = -log(count); large forests against an exact integer count; every state of the edit-history BFS (reads between edits): log_pdf = -log(exact count) and a drawn order is compatible.",
+             "sibling/label variants: support = brute-force compatible orders, every order has probability 1/count to 1e-12, log_pdf = -log(count); large forests against an exact integer count; every state of the edit-history BFS (reads between edits): log_pdf = -log(exact count) and a drawn order is compatible; clones of 20-70 data points against the exact integer count.",
         note="Trusted: the brute-force linear-extension filter in mc/oracle.py.",
         design="4/C09",
     ),
     "C02": dict(engine="E4 input enumerator + E2 reference", category="model_checking",
         technique="bounded-exhaustive enumeration of all rooted labelled forests x data alphabet x grid sizes on the real Tree, against the literal sum and a sound interval recursion",
-        text="Every rooted labelled forest on <=4 (5) nodes x grid {2..5} x 1-2 samples x 6 data kinds, six build histories each (incl. the original after its copy was edited and an older-trace dictionary), large forests, plus the direct->FFT switch at 999/1000/1001 grid points; "
+        text="Every rooted labelled forest on <=4 (5) nodes x grid {2..5} x 1-2 samples x 6 data kinds, six build histories each (incl. the original after its copy was edited and an older-trace dictionary), a point removed and put back, large forests, plus the direct->FFT switch at 999/1000/1001 grid points; "
              "per entry: finite, inside a sound enclosure [L,U] that models the documented floor and per-convolution error, and equal to the exact value at 1e-9 wherever the enclosure is tight.",
         note="Trusted: the O(G^2) log-domain recursion (validated in-run against the literal sum over all index assignments where G^K<=4000); error model constants (1e-12 relative, 1e-11 FFT absolute).", design="4/C02"),
     "C03": dict(engine="E2 state space + reference", category="model_checking",
         technique="exhaustive enumeration of all 427 trees over <=4 data points x construction histories x alpha x outlier priors, against closed-form FS-CRP densities; all-pairs identity check",
         text="log_p, log_p_one and the fused variant of every tree (every outlier subset) built post-order, reversed, from_dict, relabelled, in EVERY compatible SMC data order and via "
              "prune-regraft, vs the closed formulas with the literal-sum data term (1e-8 relative); large forests (8-12 clones); every tree over 3 clustered data points that the real loader produced "
-             "from input + cluster files in three layouts x 1-3 samples x outlier priors (model's outlier terms taken from the files); a distribution object whose alpha is re-assigned between evaluations; trees sharing a grafted subtree object with a tree edited in place; ==/hash over all pairs incl. trees over different data subsets.",
+             "from input + cluster files in three layouts x 1-3 samples x outlier priors (model's outlier terms taken from the files); a distribution object whose alpha is re-assigned between evaluations; heterogeneous outlier priors with zeros; two samples ~1500 log units apart; trees sharing a grafted subtree object with a tree edited in place; ==/hash over all pairs incl. trees over different data subsets.",
         note="Trusted: mc/oracle.py ref_log_joint written from the statement (root-count penalty includes its geometric normaliser).", design="4/C03"),
     "C05": dict(engine="E4 input enumerator", category="model_checking",
         technique="bounded-exhaustive enumeration of the read-count x copy-number x purity x error-rate x density x precision x grid cross-product through real input files, against scipy pmfs",
-        text="Every case of the cross-product in DESIGN 4/C05 through load_data vs binom/betabinom mixtures (1e-8 relative); normalisation over every alternate count for 4 depths; every partition of 4 mutations into clusters; clusters of 60-800 mutations; multi-sample inputs with scrambled rows.",
+        text="Every case of the cross-product in DESIGN 4/C05 through load_data vs binom/betabinom mixtures (1e-8 relative); normalisation over every alternate count for 4 depths; every partition of 4 mutations into clusters; clusters of 60-800 mutations; multi-sample inputs with scrambled rows and per-sample copy numbers; error rates from 1e-9 to 0.499.",
         note="Trusted: scipy.stats.binom / betabinom.", design="4/C05"),
     "C06": dict(engine="E3 edit-history BFS", category="model_checking",
         technique="explicit-state BFS over edit histories of the real Tree (canonical-state dedup, n=3 to the fixpoint) with a fresh-rebuild differential invariant in every state",
         text="Every state reachable by the samplers' edit grammar for n=3 (closed: ~12k states, 260k transitions) and to depth 5-6 for n=4: per-clone log_p/log_r, root vector, log_p, log_p_one, fused variant equal a fresh build to 1e-9(1+depth). Isolation part: every tree over <=3 (4) data points x every subtree (extracted or rebuilt from nothing) "
-             "grafted onto two copies of the pruned tree at every pair of parents, then every in-place edit of the first copy's grafted clones: the other live trees stay unchanged and equal to their fresh builds; likewise several trees restored from one dictionary / particle. Every public read method is called between edits (derived values kept on the object are warm).",
+             "grafted onto two copies of the pruned tree at every pair of parents, then every in-place edit of the first copy's grafted clones: the other live trees stay unchanged and equal to their fresh builds; likewise several trees restored from one dictionary / particle. Every public read method is called between edits (derived values kept on the object are warm); searches whose fresh build is made on emptied memo tables (also at 1000/1001 grid points) and searches that stop between a graft and the samplers' update().",
         note="Canonical form covers every slot incl. sibling order and the graph library's vacated-position list; SMC placements only on SMC-built states (as the samplers compose them).", design="4/C06"),
     "C07": dict(engine="E3 edit-history BFS + E1 explorer", category="model_checking",
         technique="structural invariant evaluated in every state of the explicit-state edit BFS and on the result of every enumerated execution of every sampler move",
@@ -75,7 +75,7 @@ CHECKS = {
         note="Reads the Tree's __slots__ directly.", design="4/C07"),
     "C10": dict(engine="E4 input enumerator + E2 reference", category="model_checking",
         technique="bounded-exhaustive enumeration of all forests x grids x data alphabet incl. forced ties, against a brute-force maximum over all feasible index assignments",
-        text="MAP CCF dictionaries (and the table columns) for every forest on <=4 (5) nodes: on-grid, feasible per sample, score equals the brute-force maximum, prevalence = ccf - children >= -1e-12.",
+        text="MAP CCF dictionaries (and the table columns) for every forest on <=4 (5) nodes: on-grid, feasible per sample, score equals the brute-force maximum, prevalence = ccf - children >= -1e-12; large forests and grids of 256-301 (1000) points against an independent dynamic programme.",
         note="Ties: any maximiser accepted.", design="4/C10"),
     "C11": dict(engine="E4 trace enumerator", category="model_checking",
         technique="exhaustive enumeration of all traces up to 3 chains x 3 (4) entries over a tree/score alphabet x every chain completion order, through the real writer and summary commands, against a Counter",
@@ -91,7 +91,7 @@ CHECKS = {
         note="Continuous draws over a 7-quantile alphabet; invariance of the mixture is mathematics, side-checked by quadrature.", design="4/C13"),
     "C14": dict(engine="E1 EnumRNG explorer + shadow execution", category="model_checking",
         technique="enumeration of call histories (move / alpha-change / clear sequences) x random outcomes under EnumRNG with every memoised call shadowed by the wrapped original",
-        text="Every history up to length 2 (3) plus all X-change-X histories, with and without the run loop's clears: each of ~2M memoised calls equals recomputation at 1e-9 (arrays), proposal support/probabilities and cached new-clone trees; memo keys pairwise different over 320k (600k) enumerated arguments; 2600 (9000) distinct children lists in one process without clears (eviction), every call shadowed.",
+        text="Every history up to length 2 (3) plus all X-change-X histories, with and without the run loop's clears: each of ~2M memoised calls equals recomputation at 1e-9 (arrays), proposal support/probabilities and cached new-clone trees; memo keys pairwise different over 320k (600k) enumerated arguments; 2600 (9000) distinct children lists in one process without clears (eviction), every call shadowed; bit-exact history independence across orderings and nearly equal lists; proposal shadows compare clone numbering and candidate order.",
         note="n=2 full enumeration, n=3 / length 3 deviation-bounded.", design="4/C14"),
     "C15": dict(engine="E3 edit-history BFS + E1 explorer", category="model_checking",
         technique="explicit-state BFS over edit histories with a serialisation bisimulation invariant; deviation-bounded exploration of the real chain driver under EnumRNG and a virtual clock",
@@ -103,11 +103,11 @@ CHECKS = {
         note="Cases within 1e-9 of the threshold skipped; quick n=4 triples assume equivariance under renaming data indices.", design="4/C16"),
     "C17": dict(engine="E4 input enumerator", category="model_checking",
         technique="exhaustive enumeration of all 4^6 cell-state tables x column/separator/cluster variants x row orders through load_data, against a pure-Python filter and the C05 model",
-        text="Every table over 3 mutations x 2 samples with cells ok/missing/cn0/duplicated (minus the excluded families) plus tables with a cell holding a usable row and an extra zero-copy-number row, all row permutations (<=5 rows) or 8 structured orders: same result for every order, kept set, numbering, sample order, defaults, values; major<minor rejected.",
+        text="Every table over 3 mutations x 2 samples with cells ok/missing/cn0/duplicated (minus the excluded families) plus tables with a cell holding a usable row and an extra zero-copy-number row, all row permutations (<=5 rows) or 8 structured orders: same result for every order, kept set, numbering, sample order, defaults, values; major<minor rejected; large multi-sample tables (up to 12 samples) incl. clustered loads compared bit for bit across row orders.",
         note="Degenerate offsetting tables must be rejected or correctly filtered.", design="4/C17"),
     "C18": dict(engine="E5 TLC pool model + subprocess replay", category="model_checking",
         technique="TLC explicit-state exploration of a TLA+ model of the process pool; every terminal state (schedule class) replayed against the implementation in fresh processes; real spawn-pool runs under varied hash seed / affinity",
-        text="All 15 schedule classes for 3 chains (3 for 2): every (chain, warm-worker history) pair re-run in a fresh process through the real run() wiring and compared bit-exactly with the cold trace; every completion order through the real writer; real pool runs under 4 hash seeds x 2 affinities identical.",
+        text="All 15 schedule classes for 3 chains (3 for 2): every (chain, warm-worker history) pair re-run in a fresh process through the real run() wiring and compared bit-exactly with the cold trace; every completion order through the real writer; real pool runs under 4 hash seeds x 2 affinities identical; option sets include seed 0 and outlier priors assigned from the data with a tie for the truncal cluster; warm replays under hash seeds 1,2,3,5,77,1000.",
         note="Model bound to the code by replaying every class; classes cross-checked by an independent Python enumerator. Finite set of seeds/option sets.", design="4/C18"),
     "C19": dict(engine="E1 EnumRNG explorer (deviation-bounded)", category="model_checking",
         technique="deviation-bounded exploration of the real chain driver under EnumRNG + virtual clock over the full cross-product of CLI option values",
@@ -115,7 +115,7 @@ CHECKS = {
         note="Not exhaustive over random outcomes of a whole run; completed bounds and caps reported in evidence.", design="4/C19"),
     "C20": dict(engine="E5 in-memory device + fault injector", category="fault_enumeration",
         technique="crash-point enumeration: every byte prefix of the real writer's stream through the three readers; ENOSPC at every write-call boundary",
-        text="For five traces (1, 2, 6, 9 chains, clustered) every prefix 0..len-1, plus a systematic subset of the crash points of a 1101-entry chain (about 5200 crash points x 3 readers): reader raises or output is byte-identical to the complete file's; identical output is accepted only when the prefix still holds the whole payload; ENOSPC at each of the writer's write calls makes the run fail and leaves a proper prefix; whole-run crash points of real 1-3 chain runs through a write-session device.",
+        text="For five traces (1, 2, 6, 9 chains, clustered) every prefix 0..len-1, plus a systematic subset of the crash points of a 1101-entry chain (about 5200 crash points x 3 readers): reader raises or output is byte-identical to the complete file's; identical output is accepted only when the prefix still holds the whole payload; ENOSPC at each of the writer's write calls makes the run fail and leaves a proper prefix; whole-run crash points of real 1-3 chain runs through a write-session device; rewrites over an existing trace (in-place writers, writers that set files aside) on a real directory.",
         note="gzip mtime fixed to 0 for a reproducible stream.", design="4/C20"),
 }
 
